@@ -19,8 +19,8 @@ INVS = ["TypeOK", "Bounded", "NoLostWakeupR", "NoLostWakeupW", "SlotHoldsWaiter"
 
 def configs(tier):
     if tier == "quick":
-        return [dict(Cap=1, MaxReq=2, Budget=0), dict(Cap=2, MaxReq=3, Budget=0), dict(Cap=3, MaxReq=2, Budget=0),
-                dict(Cap=2, MaxReq=2, Budget=3)]
+        return [dict(Cap=1, MaxReq=2, Budget=0), dict(Cap=2, MaxReq=3, Budget=0), dict(Cap=3, MaxReq=3, Budget=0),
+                dict(Cap=5, MaxReq=5, Budget=0), dict(Cap=2, MaxReq=2, Budget=3)]
     return [dict(Cap=c, MaxReq=m, Budget=b) for c in (1, 2, 3, 4) for m in (2, 4) for b in (0, 2, 5)]
 
 
@@ -78,6 +78,13 @@ def run(tier, out):
         tot["transitions"] += g.n_edges
         paths = g.covering_paths(extend=4 if tier == "quick" else 8, rng=rng)
         paths += g.random_walks(200 if tier == "quick" else 3000, 12 if tier == "quick" else 24, rng)
+        if k["Budget"] == 0:
+            # the channel's behaviour may depend on history the model abstracts from (the allocation state of the
+            # internal buffer): every sequence of reads / writes of 1 byte or of the whole capacity, to a fixed depth
+            cap = k["Cap"]
+            deep = g.all_paths(8 if tier == "quick" else 10,
+                               keep=lambda a: a["k"] in ("read", "write") and a.get("n") in (1, cap))
+            paths += deep
         cases = [{"id": "%d.%d" % (ci, i), "cfg": {"cap": k["Cap"], "budget": k["Budget"]}, "acts": p}
                  for i, p in enumerate(paths)]
         results = rp.run_cases("h_core", "bytechan", cases, wd, tag="bc%d" % ci, input_keys=INPUT_KEYS)
